@@ -206,6 +206,10 @@ class solve_torchfcn(torch.autograd.Function):
                 with ctx.M.uselinopparams(*mparams):
                     Mx = ctx.M.mm(x)  # (*BABEM, nr, ncols)
             grad_E = torch.einsum('...rc,...rc->...c', v, Mx.conj())  # (*BABEM, ncols)
+            if not torch.is_complex(E):
+                # a real E only receives the real part (autograd rejects a complex
+                # gradient for a real input)
+                grad_E = grad_E.real
 
         # calculate the gradient to the biases matrices
         # (M does not influence the result if E is None, but its parameters
